@@ -30,6 +30,13 @@ NS2 = "http://ns.example.org/other#Meta"
 ALL_CFG = [(d, w, a, ns) for d in range(1, 6) for w in range(1, 5) for a in STORE_ALGOS for ns in (DEFAULT_NS, NS2)]
 
 
+# namespaces that a hand-written YAML emitter / parser would mangle (numbers, booleans, nulls, comment and flow
+# characters, anchors, tags, quotes); the ones with white space count only where the store accepts them at creation
+ODD_NS = ["2.0", "1e3", "true", "null", "~", "'q'", '"dq"', "[x]", "{a}", "*star", "&anchor", "!tag", "%dir", "@at", "`tick",
+          "ns:", ":ns", "0x1F", "012", "1_000", "yes", "No", "2001-01-01", "a\\b", "\u00e9\u2013\u00fc", "#lead", "x#y", "?", "|", ">",
+          "-", "3", "key:value", "a:b:c", "http://x/y#frag", "a #b", "ns: x", "- dash", "a: b: c", "x" * 300]
+
+
 def props(path, d, w, a, ns, **extra):
     p = {"store_path": path, "store_depth": d, "store_width": w, "store_algorithm": a,
          "store_metadata_namespace": ns}
@@ -43,6 +50,7 @@ def shards(tier, seed):
     out = [("deviations", c, s) for c, s in zip(chunk(sample, ncpu()), split_seeds(seed + 14, ncpu()))]
     if tier == "thorough":
         out += [("pairs", c, 0) for c in chunk(ALL_CFG, ncpu() * 2)]
+    out += [("oddns", c, 0) for c in chunk(ODD_NS, 4)]
     return out
 
 
@@ -117,6 +125,22 @@ def run_shard(mode, cfgs, sub_seed):
     docp = os.path.join(scratch, "doc")
     open(docp, "wb").write(b"<sysmeta/>")
     try:
+        if mode == "oddns":
+            for i, ns in enumerate(cfgs):
+                root = os.path.join(scratch, f"odd{i}")
+                created = (rng.choice([1, 2, 3]), rng.choice([1, 2, 3]), rng.choice(STORE_ALGOS), ns)
+                out = call(FHS, props(root, *created))
+                if not out.ok:
+                    res.count("odd_namespaces_refused_at_creation")   # a store may restrict namespaces; no verdict
+                    continue
+                res.count("odd_namespaces_created")
+                populate(out.value, paths, docp)
+                reopen_and_judge(res, FHS, root, created, props(root, *created), True, cb, "same:odd-namespace")
+                reopen_and_judge(res, FHS, root, created, props(root, str(created[0]), str(created[1]), created[2], ns), True, cb, "same:odd-namespace:str-ints")
+                for other in (ns + "x", ns[:-1], ns.upper() if ns.upper() != ns else ns.lower(), DEFAULT_NS, ns + " ", "'" + ns + "'"):
+                    if other != ns:
+                        reopen_and_judge(res, FHS, root, created, props(root, created[0], created[1], created[2], other), True, cb, "single:ns:odd-namespace")
+            return res
         if mode == "pairs":
             for created in cfgs:
                 root = os.path.join(scratch, "s")
